@@ -26,22 +26,26 @@ Definition f_hs : N := c_gw_header_words * 4.          (* GetHeaderSize() = 2*si
 Definition f_scratch : N := c_gw_scratch_size.          (* _scratchRecvBufferSizeBytes *)
 
 Section Frame.
+  Variable Msg : Type.      (* what is queued and delivered: the flattened bytes of a Message for the
+                               plain gateway, an abstract Message for the templating gateway *)
   Variables CS CR : Type.
   (* FlattenHeaderAndMessage: body -> header ++ payload, stepping the send codec *)
-  Variable flat : CS -> bytes -> CS * bytes.
+  Variable flat : CS -> Msg -> CS * bytes.
   (* UnflattenHeaderAndMessage on a complete buffer: recovered body, or None (error) *)
-  Variable unflat : CR -> bytes -> CR * option bytes.
+  Variable unflat : CR -> bytes -> CR * option Msg.
+  (* GetBodySize (virtual, 500-510) on the complete header: body size, or None = B_BAD_DATA *)
+  Variable body_size : bytes -> option N.
   Variable max_in : N.                                   (* _maxIncomingMessageSize *)
 
   (* ------------------------------------------------------------------ sender *)
   Record fsend := mkFS {
-    fs_q : list bytes;          (* outgoing Message queue (bodies) *)
+    fs_q : list Msg;            (* outgoing Message queue *)
     fs_buf : option bytes;      (* _sendBuffer._buffer *)
     fs_off : N;                 (* _sendBuffer._offset *)
     fs_cs : CS }.               (* _sendCodec state *)
 
   Definition fs_init (c : CS) : fsend := mkFS [] None 0 c.
-  Definition fs_queue (st : fsend) (m : bytes) : fsend :=
+  Definition fs_queue (st : fsend) (m : Msg) : fsend :=
     mkFS (fs_q st ++ [m]) (fs_buf st) (fs_off st) (fs_cs st).
 
   (* lines 99-149: make sure _sendBuffer holds data *)
@@ -95,14 +99,14 @@ Section Frame.
      test (bodySize <= MUSCLE_NO_LIMIT-hs, added by the fix of finding F3) keeps hs+bodySize,
      which is uint32 arithmetic in the C++, from wrapping around. *)
   Definition f_header (cap : N) (hdr : bytes) : option N :=
-    let enc := rd32 (drop 4 hdr) in
-    if (c_MUSCLE_MESSAGE_ENCODING_DEFAULT <=? enc) && (enc <=? c_MUSCLE_MESSAGE_ENCODING_END_MARKER - 1) then
-      let body := rd32 hdr in
+    match body_size hdr with
+    | Some body =>
       if (body <=? max_in) && (body <=? c_MUSCLE_NO_LIMIT - f_hs) then
         let avail := if f_hs <? cap then cap - f_hs else 0 in
         if body <=? avail then Some (f_hs + body) else Some (u32 (f_hs + body))
       else None
-    else None.
+    | None => None
+    end.
 
   (* ReceiveMoreData: (buffer contents, new maxBytes, script, pipe, short?) *)
   Definition f_recv_more (got : bytes) (target maxb : N) (scr : list N) (pipe : bytes)
@@ -131,12 +135,12 @@ Section Frame.
 
   (* result of one turn of the while loop: the call ends, or the loop goes round again *)
   Inductive fturn :=
-  | FEnd (st : frecv) (outs : list bytes) (pipe : bytes)
-  | FNext (st : frecv) (maxb : N) (scr : list N) (pipe : bytes) (outs : list bytes).
+  | FEnd (st : frecv) (outs : list Msg) (pipe : bytes)
+  | FNext (st : frecv) (maxb : N) (scr : list N) (pipe : bytes) (outs : list Msg).
 
   (* lines 303-316: body phase *)
   Definition f_body_phase (cr : CR) (cap1 : N) (got1 : bytes) (maxb1 : N) (scr1 : list N) (pipe1 : bytes)
-             (outs : list bytes) : fturn :=
+             (outs : list Msg) : fturn :=
     let '(got2, maxb2, scr2, pipe2, short) :=
       if blen got1 <? cap1 then f_recv_more got1 cap1 maxb1 scr1 pipe1
       else (got1, maxb1, scr1, pipe1, false) in
@@ -149,7 +153,7 @@ Section Frame.
     else FNext (mkFR (Some (cap1, got2)) false cr) maxb2 scr2 pipe2 outs.
 
   (* one turn of the loop 206-318 (stream branch), including the loop condition *)
-  Definition f_turn (st : frecv) (maxb : N) (scr : list N) (pipe : bytes) (outs : list bytes) : fturn :=
+  Definition f_turn (st : frecv) (maxb : N) (scr : list N) (pipe : bytes) (outs : list Msg) : fturn :=
     if (maxb =? 0) || fr_err st then FEnd st outs pipe else
     let '(cap, got) := match fr_buf st with Some x => x | None => (f_scratch, []) end in
     match f_header_phase (fr_cr st) cap got maxb scr pipe with
@@ -160,7 +164,7 @@ Section Frame.
     end.
 
   Fixpoint f_in_loop (fuel : nat) (st : frecv) (maxb : N) (scr : list N) (pipe : bytes)
-           (outs : list bytes) {struct fuel} : frecv * list bytes * bytes :=
+           (outs : list Msg) {struct fuel} : frecv * list Msg * bytes :=
     match fuel with
     | O => (st, outs, pipe)
     | S fuel' =>
@@ -174,28 +178,28 @@ Section Frame.
      script entry, and an exhausted script makes the next Read short: |scr|+1 turns suffice
      (FrameProofs.f_in_fuel_enough) *)
   Definition f_do_input (st : frecv) (maxb : N) (scr : list N) (pipe : bytes)
-    : frecv * list bytes * bytes :=
+    : frecv * list Msg * bytes :=
     f_in_loop (S (length scr)) st maxb scr pipe [].
 
   (* ------------------------------------------------------------------ byte-at-a-time reference
      receiver (L0): the same header/body machine advanced one byte per step; used to state the
      split lemma and to characterise what any sequence of DoInput calls delivers. *)
   (* a complete buffer: reconstruct the Message, reset *)
-  Definition f_done (cr : CR) (buf : bytes) : frecv * list bytes :=
+  Definition f_done (cr : CR) (buf : bytes) : frecv * list Msg :=
     match unflat cr buf with
     | (cr', Some m) => (mkFR None false cr', [m])
     | (cr', None) => (mkFR None true cr', [])
     end.
 
   (* the 8th header byte has arrived *)
-  Definition f_hdr_done (cr : CR) (cap : N) (got1 : bytes) : frecv * list bytes :=
+  Definition f_hdr_done (cr : CR) (cap : N) (got1 : bytes) : frecv * list Msg :=
     match f_header cap got1 with
     | None => (mkFR (Some (cap, got1)) true cr, [])
     | Some cap1 => if blen got1 =? cap1 then f_done cr got1
                    else (mkFR (Some (cap1, got1)) false cr, [])
     end.
 
-  Definition f_byte (st : frecv) (b : byte) : frecv * list bytes :=
+  Definition f_byte (st : frecv) (b : byte) : frecv * list Msg :=
     if fr_err st then (st, []) else
     let '(cap, got) := match fr_buf st with Some x => x | None => (f_scratch, []) end in
     let got1 := got ++ [b] in
@@ -206,7 +210,7 @@ Section Frame.
       if blen got1 =? cap then f_done (fr_cr st) got1
       else (mkFR (Some (cap, got1)) false (fr_cr st), []).
 
-  Fixpoint f_feed (st : frecv) (bs : bytes) : frecv * list bytes :=
+  Fixpoint f_feed (st : frecv) (bs : bytes) : frecv * list Msg :=
     match bs with
     | [] => (st, [])
     | b :: t => let '(st1, o1) := f_byte st b in
@@ -214,15 +218,21 @@ Section Frame.
     end.
 End Frame.
 
-Arguments mkFS {CS}. Arguments fs_q {CS}. Arguments fs_buf {CS}. Arguments fs_off {CS}. Arguments fs_cs {CS}.
+Arguments mkFS {Msg CS}. Arguments fs_q {Msg CS}. Arguments fs_buf {Msg CS}. Arguments fs_off {Msg CS}. Arguments fs_cs {Msg CS}.
 Arguments mkFR {CR}. Arguments fr_buf {CR}. Arguments fr_err {CR}. Arguments fr_cr {CR}.
-Arguments fs_init {CS}. Arguments fs_queue {CS}. Arguments fr_init {CR}. Arguments fs_has_bytes {CS}.
+Arguments fs_init {Msg CS}. Arguments fs_queue {Msg CS}. Arguments fr_init {CR}. Arguments fs_has_bytes {Msg CS}.
 
 (* ---------------------------------------------------------------------- default encoding
    FlattenHeaderAndMessage (394-436) without a codec: header = le32 |body| ++ le32 ENCODING_DEFAULT.
    UnflattenHeaderAndMessage (438-489): size word must match, encoding must be DEFAULT (any
    other in-range encoding would go to zlib: see ZlibModel.v), the rest is the body (handed to
    Message::Unflatten, which is outside this model: bodies are valid flattened Messages). *)
+(* MessageIOGateway::GetBodySize (500-510): the encoding word must be one of the ten known encodings *)
+Definition d_body_size (hdr : bytes) : option N :=
+  let enc := rd32 (drop 4 hdr) in
+  if (c_MUSCLE_MESSAGE_ENCODING_DEFAULT <=? enc) && (enc <=? c_MUSCLE_MESSAGE_ENCODING_END_MARKER - 1)
+  then Some (rd32 hdr) else None.
+
 Definition d_flat (c : unit) (body : bytes) : unit * bytes :=
   (c, le32 (blen body) ++ le32 c_MUSCLE_MESSAGE_ENCODING_DEFAULT ++ body).
 
@@ -230,6 +240,6 @@ Definition d_unflat (c : unit) (buf : bytes) : unit * option bytes :=
   if (u32 (f_hs + rd32 buf) =? blen buf) && (rd32 (drop 4 buf) =? c_MUSCLE_MESSAGE_ENCODING_DEFAULT)
   then (c, Some (drop f_hs buf)) else (c, None).
 
-Definition d_do_output := f_do_output unit d_flat.
-Definition d_do_input (max_in : N) := f_do_input unit d_unflat max_in.
-Definition d_feed (max_in : N) := f_feed unit d_unflat max_in.
+Definition d_do_output := f_do_output bytes unit d_flat.
+Definition d_do_input (max_in : N) := f_do_input bytes unit d_unflat d_body_size max_in.
+Definition d_feed (max_in : N) := f_feed bytes unit d_unflat d_body_size max_in.
